@@ -5,10 +5,8 @@ EXTENDS WnTaxonomy, Json
 CONSTANT N
 VARIABLE G
 NN == 1..N
-Graphs == {[n |-> N, hyp |-> h, hypo |-> {<<e[2], e[1]>> : e \in h},
-            pos |-> [x \in NN |-> "n"]] : h \in SUBSET (NN \X NN)}
-Mk(h) == [n |-> N, hyp |-> h, hypo |-> {<<e[2], e[1]>> : e \in h},
-          pos |-> [x \in NN |-> "n"]]
+Mk(h) == Prep([n |-> N, hyp |-> h, hypo |-> {<<e[2], e[1]>> : e \in h},
+               pos |-> [x \in NN |-> "n"]])
 \* the state graph is the lattice of edge sets: every labelled digraph is one
 \* state, reached by declaring one more hypernym relation
 Init == G = Mk({})
